@@ -1,27 +1,59 @@
 /-
-  C14 helper: the two instances of the invariant principle (what the repaired `!py` arrangement and
+  C14 helper: the two instances of the invariant principle (what the `!py` arrangement as it is now and
   the `pypyr.steps.py` arrangement cannot touch) and unfolding lemmas for `load`.
 -/
 import Props.Lemmas.C14_Stmt
 
 namespace Pypyr.PyNs
 
-/-! ### `!py` (repaired arrangement): only `scratch`, `hidden` and the heap can change -/
+/-! ### `!py` (arrangement NOW): only the throw-away own dict `scratch` and the heap can change -/
 
-/-- Everything of the state that is not the throw-away child map, the raw dict slot of the
-    namespace object or the heap. -/
-def St.evalRest (st : St) : Env × Env × Env × Env × Env := (st.ctx, st.imps, st.ns, st.bi, st.saved)
+/-- Everything of the state that is not the own dict of the throw-away namespace or the heap. -/
+def St.evalRest (st : St) : Env × Env × Env × Env × Env × Env :=
+  (st.ctx, st.imps, st.hidden, st.ns, st.bi, st.saved)
 
-theorem inv_evalFixed (t : Env × Env × Env × Env × Env) : Inv .evalFixed (fun st => st.evalRest = t) where
+theorem inv_evalFixed (t : Env × Env × Env × Env × Env × Env) :
+    Inv .evalFixed (fun st => st.evalRest = t) where
   heap := fun _ _ hp => hp
   sName := fun _ _ _ hp => hp
   sGlobal := fun _ _ _ hp => hp
 
-/-- Any expression, in any scope, from any state, with any fuel: under `eval(src, ns, ns.new_child())`
-    context, imports, builtins (and the py-step fields) are untouched. -/
+/-- Any expression, in any scope, from any state, with any fuel: under
+    `n = _EvalNamespace(ctx, imps); eval(src, n, n)` context, imports, the per-Context namespace
+    object's raw slot, builtins (and the py-step fields) are untouched. -/
 theorem evalExpr_evalFixed_rest (fuel : Nat) (sc : Scope) (e : Expr) (st : St) :
     (evalExpr .evalFixed fuel sc e st).2.evalRest = st.evalRest :=
   (eval_inv (inv_evalFixed st.evalRest) fuel).1 sc e st rfl
+
+/-- A state is determined by its fields. -/
+theorem St.ext' (s t : St) (h1 : s.evalRest = t.evalRest) (h2 : s.scratch = t.scratch)
+    (h3 : s.heap = t.heap) : s = t := by
+  cases s; cases t
+  simp only [St.evalRest, Prod.mk.injEq] at h1
+  simp only [] at h2 h3
+  obtain ⟨a, b, c, d, e, f⟩ := h1
+  subst a b c d e f h2 h3
+  rfl
+
+/-- Under the arrangement NOW the module-level lookup (LOAD_NAME) and the nested-scope lookup
+    (LOAD_GLOBAL) are the same function: own dict, context, imports, builtins. -/
+theorem loadName_evalFixed (st : St) (x : String) :
+    loadName .evalFixed st x = loadGlobal .evalFixed st x := by
+  simp only [loadName, loadGlobal, localsGetItem, globalsGetItem, globalsRaw]
+  cases st.scratch.get? x <;> cases st.ctx.get? x <;> cases st.imps.get? x <;> rfl
+
+theorem loadGlobal_evalFixed (st : St) (x : String) :
+    loadGlobal .evalFixed st x =
+      orElse (st.scratch.get? x) (orElse (st.ctx.get? x) (orElse (st.imps.get? x) (st.bi.get? x))) := by
+  simp only [loadGlobal, globalsGetItem]
+  cases st.scratch.get? x <;> cases st.ctx.get? x <;> cases st.imps.get? x <;> rfl
+
+theorem ownInit_get? (x : String) :
+    ownInit.get? x = if "__builtins__" = x then some builtinsTok else Option.none := by
+  simp only [ownInit, Env.get?]
+
+theorem ownInit_get?_of_ne (x : String) (h : x ≠ "__builtins__") : ownInit.get? x = Option.none := by
+  rw [ownInit_get?, if_neg (Ne.symm h)]
 
 /-! ### py step: only `ns`, the heap, and — through `save` — `ctx`/`saved` can change -/
 
@@ -118,18 +150,20 @@ theorem load_of_declGlobal (a : Arr) (sc : Scope) (st : St) (x : String)
     (h : chainLoad st.heap x sc.chain = .declGlobal) : load a sc st x = optRes (loadGlobal a st x) := by
   simp only [load, h]
 
-/-- Reading a name at the top level of a `!py` expression is LOAD_NAME on the fresh child map. -/
+/-- Reading a name at the top level of a `!py` expression is LOAD_NAME on the new namespace
+    object (own dict `{__builtins__}`; before 62901c4 on the per-Context object). -/
 theorem runEval_name (old : Bool) (fuel : Nat) (st : St) (x : String) :
     (runEval old (fuel + 1) st (.name x)).1 =
-      optRes (loadName (if old then .evalOld else .evalFixed) { st with scratch := [] } x) := by
+      optRes (loadName (if old then .evalOld else .evalFixed)
+        { st with scratch := if old then [] else ownInit } x) := by
   simp [runEval, evalExpr, load, chainLoad, Expr.compWalrus]
 
 /-- `(lambda: x)()` written where no enclosing function/comprehension scope exists (the top level
     of a `!py` expression or of a py block), any state: the read inside the lambda is LOAD_GLOBAL. -/
 theorem lambda_reads_global (a : Arr) (fuel : Nat) (sc : Scope) (st : St) (x : String)
-    (hc : sc.chain = []) :
+    (hc : sc.chain = []) (hb : sc.base ≤ st.heap.length) :
     (evalExpr a (fuel + 3) sc (.call (.lam [] (.name x)) []) st).1 = optRes (loadGlobal a st x) := by
   simp [evalExpr, evalList, callFn, runBody, callee, St.alloc, load, chainLoad, fnDeclared,
-    bodyAssigned, Expr.assigned, loadGlobal, globalsGetItem, hc]
+    bodyAssigned, Expr.assigned, loadGlobal, globalsGetItem, hc, Nat.not_lt.2 hb]
 
 end Pypyr.PyNs
